@@ -16,6 +16,7 @@ package main
 // Only non-empty child fields are printed, in struct declaration order.
 
 import (
+	"io"
 	"os"
 	"path/filepath"
 	"reflect"
@@ -225,5 +226,265 @@ func init() {
 			out = append(out, step(path))
 		}
 		return strings.Join(out, " | ")
+	}
+}
+
+// ---------------------------------------------------------------------------------------------
+// asthist <ops> <hex text> [tree tokens for the model side, ignored here]
+//
+// The history leg: the text is parsed into a fresh set (as for "ast"); then the operations named by the
+// letters of <ops> are carried out in order on that set / on the nodes of the tree that was built, and the
+// modules that Parse filed are dumped again after every step.  The syntax tree is the result of the build;
+// none of the later operations is a builder, so every dump must still be the dump of the mirror:
+//
+//   "err L:C|nopos"                 Parse refused the text
+//   "ok <dump>"                     the dump, when it is the same after Parse and after every step
+//   "changed@<i><op> ok <dump>"     the first dump that differs from the one taken right after Parse
+//
+// Operations (panics inside an operation are recovered and ignored: what they do is other properties'
+// business, here only the tree is looked at afterwards):
+//   P  Modules.Process()
+//   G  Modules.GetModule(name) for every module filed
+//   E  ToEntry(m) for every module/submodule filed
+//   e  ToEntry(n) for every node of the tree (pre-order)
+//   C  Modules.ClearEntryCache()
+//   M  MatchingExtensions(n, module, identifier) for every node n and every (module, identifier) that one
+//      of n's own extension statements resolves to (FindModuleByPrefix), plus identifiers that match none
+//      and openconfig-extensions/posix-pattern
+//   X  MatchingEntryExtensions(e, …) likewise for the entry of every node (ToEntry), when there is one
+//   N  the read-only helpers on every node: Source, NodePath, RootNode, FindModuleByPrefix, ChildNode,
+//      FindNode, FindGrouping, PrintNode, Exts/Typedefs/Groupings/Identities, Module.Current/FullName/GetPrefix
+
+func c03FiledModules(ms *yang.Modules) []*yang.Module {
+	seen := map[*yang.Module]bool{}
+	var mods []*yang.Module
+	for _, m := range []map[string]*yang.Module{ms.Modules, ms.SubModules} {
+		for _, v := range m {
+			if v != nil && !seen[v] {
+				seen[v] = true
+				mods = append(mods, v)
+			}
+		}
+	}
+	sort.Slice(mods, func(i, j int) bool {
+		li, ci := c03Pos(mods[i].Source)
+		lj, cj := c03Pos(mods[j].Source)
+		return li < lj || (li == lj && ci < cj)
+	})
+	return mods
+}
+
+// c03Numbering numbers the statements of the parsed text (pre-order over the modules in source order).
+func c03Numbering(mods []*yang.Module) map[*yang.Statement]int {
+	ids := map[*yang.Statement]int{}
+	ctr := 0
+	var number func(s *yang.Statement)
+	number = func(s *yang.Statement) {
+		ids[s] = ctr
+		ctr++
+		for _, c := range s.SubStatements() {
+			number(c)
+		}
+	}
+	for _, m := range mods {
+		number(m.Source)
+	}
+	return ids
+}
+
+func c03DumpMods(mods []*yang.Module, ids map[*yang.Statement]int) string {
+	var b strings.Builder
+	b.WriteString("ok")
+	for _, m := range mods {
+		b.WriteString(" ")
+		c03Dump(&b, reflect.ValueOf(m), nil, ids)
+	}
+	return b.String()
+}
+
+// c03Nodes lists the nodes of the tree below v in pre-order (the same reflection walk as the dump).
+func c03Nodes(v reflect.Value, out *[]yang.Node, budget *int) {
+	if *budget <= 0 {
+		return
+	}
+	*budget--
+	if n, ok := v.Interface().(yang.Node); ok {
+		*out = append(*out, n)
+	}
+	st := v.Elem()
+	t := st.Type()
+	for i := 0; i < t.NumField(); i++ {
+		tag := t.Field(i).Tag.Get("yang")
+		if tag == "" {
+			continue
+		}
+		key := strings.Split(tag, ",")[0]
+		fv := st.Field(i)
+		switch {
+		case key == "Ext", fv.Kind() == reflect.String, fv.Kind() == reflect.Interface, fv.Type() == c03StatementType:
+		case fv.Kind() == reflect.Ptr:
+			if !fv.IsNil() {
+				c03Nodes(fv, out, budget)
+			}
+		case fv.Kind() == reflect.Slice:
+			for j := 0; j < fv.Len(); j++ {
+				if k := fv.Index(j); k.Kind() == reflect.Ptr && !k.IsNil() {
+					c03Nodes(k, out, budget)
+				}
+			}
+		}
+	}
+}
+
+func c03Quiet(f func()) {
+	defer func() { _ = recover() }()
+	f()
+}
+
+// c03ExtQueries: the (module, identifier) pairs worth asking node n for.
+func c03ExtQueries(n yang.Node, exts []*yang.Statement) [][2]string {
+	seen := map[[2]string]bool{}
+	var qs [][2]string
+	add := func(m, id string) {
+		q := [2]string{m, id}
+		if !seen[q] {
+			seen[q] = true
+			qs = append(qs, q)
+		}
+	}
+	for _, x := range exts {
+		if x == nil {
+			continue
+		}
+		names := strings.SplitN(x.Keyword, ":", 2)
+		id := ""
+		if len(names) == 2 {
+			id = names[1]
+		}
+		var mod *yang.Module
+		c03Quiet(func() { mod = yang.FindModuleByPrefix(n, names[0]) })
+		if mod != nil {
+			add(mod.Name, id)
+			add(mod.Name, id+"-none")
+		}
+	}
+	add("openconfig-extensions", "posix-pattern")
+	return qs
+}
+
+func c03Step(op byte, ms *yang.Modules, mods []*yang.Module, nodes []yang.Node) {
+	switch op {
+	case 'P':
+		c03Quiet(func() { ms.Process() })
+	case 'G':
+		for _, m := range mods {
+			if m.Kind() == "module" {
+				c03Quiet(func() { ms.GetModule(m.Name) })
+			}
+		}
+	case 'E':
+		for _, m := range mods {
+			c03Quiet(func() { yang.ToEntry(m) })
+		}
+	case 'e':
+		for _, n := range nodes {
+			c03Quiet(func() { yang.ToEntry(n) })
+		}
+	case 'C':
+		c03Quiet(func() { ms.ClearEntryCache() })
+	case 'M':
+		for _, n := range nodes {
+			var exts []*yang.Statement
+			c03Quiet(func() { exts = append(exts, n.Exts()...) })
+			if len(exts) == 0 {
+				continue
+			}
+			for _, q := range c03ExtQueries(n, exts) {
+				c03Quiet(func() { yang.MatchingExtensions(n, q[0], q[1]) })
+			}
+		}
+	case 'X':
+		for _, n := range nodes {
+			var e *yang.Entry
+			c03Quiet(func() { e = yang.ToEntry(n) })
+			if e == nil || len(e.Exts) == 0 {
+				continue
+			}
+			exts := append([]*yang.Statement(nil), e.Exts...)
+			for _, q := range c03ExtQueries(n, exts) {
+				c03Quiet(func() { yang.MatchingEntryExtensions(e, q[0], q[1]) })
+			}
+		}
+	case 'N':
+		// ChildNode/FindNode follow `uses` statements by name without a visited set (a uses whose name
+		// leads back to itself recurses until the stack is exhausted, which recover cannot catch); that is
+		// not this property's subject, so they are only called on sets without uses statements
+		hasUses := false
+		for _, n := range nodes {
+			if n.Kind() == "uses" {
+				hasUses = true
+			}
+		}
+		for _, n := range nodes {
+			c03Quiet(func() { yang.Source(n) })
+			c03Quiet(func() { yang.NodePath(n) })
+			c03Quiet(func() { yang.RootNode(n) })
+			c03Quiet(func() { yang.FindModuleByPrefix(n, "r") })
+			c03Quiet(func() { yang.FindModuleByPrefix(n, "") })
+			if !hasUses {
+				c03Quiet(func() { yang.ChildNode(n, "a") })
+				c03Quiet(func() { yang.ChildNode(n, "c1") })
+				c03Quiet(func() { yang.FindNode(n, "a") })
+				c03Quiet(func() { yang.FindNode(n, "../b") })
+			}
+			c03Quiet(func() { yang.FindGrouping(n, "a", map[string]bool{}) })
+			c03Quiet(func() { yang.FindGrouping(n, "r:a", map[string]bool{}) })
+			c03Quiet(func() { yang.PrintNode(io.Discard, n) })
+			c03Quiet(func() { n.Exts(); n.Kind(); n.NName(); n.ParentNode(); n.Statement() })
+			if m, ok := n.(*yang.Module); ok {
+				c03Quiet(func() {
+					m.Current()
+					m.FullName()
+					m.GetPrefix()
+					m.Typedefs()
+					m.Groupings()
+					m.Identities()
+				})
+			}
+		}
+	}
+}
+
+func init() {
+	handlers["asthist"] = func(t []string) string {
+		ops := t[0]
+		text := string(unhex(t[1]))
+		ms := yang.NewModules()
+		if err := ms.Parse(text, "t.yang"); err != nil {
+			return c03Err(err)
+		}
+		mods := c03FiledModules(ms)
+		for _, m := range mods {
+			if m.Source == nil {
+				return "module-without-statement"
+			}
+		}
+		ids := c03Numbering(mods)
+		first := c03DumpMods(mods, ids)
+		var nodes []yang.Node
+		budget := 20000
+		for _, m := range mods {
+			c03Nodes(reflect.ValueOf(m), &nodes, &budget)
+		}
+		if ops == "-" {
+			ops = ""
+		}
+		for i := 0; i < len(ops); i++ {
+			c03Step(ops[i], ms, mods, nodes)
+			if d := c03DumpMods(mods, ids); d != first {
+				return "changed@" + strconv.Itoa(i) + string(ops[i]) + " " + d
+			}
+		}
+		return first
 	}
 }
